@@ -39,7 +39,14 @@ Definition show_scan (bi : list name) (p : program) : string :=
             ("unused", show_list (fun x : nat * import =>
                                     "[" ++ show_nat (fst x) ++ "," ++ show_dotted (fst (snd x)) ++ ","
                                         ++ show_dotted (snd (snd x)) ++ "]") u)].
+Definition show_scan_doc (bi : list name) (p : program) : string :=
+  let '(m, u) := scan_issues_doc bi p in
+  show_obj [("missing", show_list (fun x => show_pair show_nat show_dotted x) m);
+            ("unused", show_list (fun x : nat * import =>
+                                    "[" ++ show_nat (fst x) ++ "," ++ show_dotted (fst (snd x)) ++ ","
+                                        ++ show_dotted (snd (snd x)) ++ "]") u)].
 Definition run_all (bi : list name) (ns : list (list name)) (p : program) : string :=
   show_obj [("fm", show_list show_dotted (find_missing bi ns p));
             ("scan", show_scan bi p);
+            ("scandoc", show_scan_doc bi p);
             ("trace", run_pysem bi ns p)].
